@@ -8,6 +8,7 @@ CONSTANTS
   Wnds = {16}
   Variant = "norelax"
   EmitOps = FALSE
+  EmitEvery = 1
 INVARIANT StateInv
 PROPERTY Refines
 VIEW View
